@@ -7,6 +7,8 @@ package c20
 import (
 	"encoding/json"
 	"fmt"
+	"os"
+	"os/exec"
 	"sort"
 	"strings"
 
@@ -496,6 +498,34 @@ func run(c *core.Ctx) {
 		w.explore(t, capExec)
 	})
 	w.reset()
+	if bin := os.Getenv("PANMC_RACEBIN"); bin != "" && c.Shard == 0 {
+		raceComplement(c, bin)
+	}
+}
+
+// raceComplement runs the free-running -race build; a race it reports that the explorer did not predict
+// is a harness error (the explorer's model of the synchronisation would be wrong).
+func raceComplement(c *core.Ctx, bin string) {
+	cmd := exec.Command(bin)
+	cmd.Env = append(os.Environ(), "GORACE=halt_on_error=1 exitcode=66")
+	out, err := cmd.CombinedOutput()
+	raced := strings.Contains(string(out), "WARNING: DATA RACE")
+	c.Note("race_complement", map[string]interface{}{"ran": true, "race_reported": raced, "exit_error": fmt.Sprint(err)})
+	if raced {
+		predicted := false
+		for k := range c.ViolationKeys() {
+			if strings.Contains(k, "data-race") {
+				predicted = true
+			}
+		}
+		if !predicted {
+			tail := string(out)
+			if len(tail) > 1500 {
+				tail = tail[:1500]
+			}
+			c.HarnessError("the free-running -race build reports a data race that the explorer did not predict:\n%s", tail)
+		}
+	}
 }
 
 func replay(c *core.Ctx, raw json.RawMessage) {
